@@ -48,14 +48,52 @@ def make_context(decl, backend):
     return ctx
 
 
-def make_automaton(flex, rigid, backend):
-    """flex, rigid: lists of (name, kind)."""
+def warm_up(aut):
+    """Use the context between two declarations (history independence: a
+    result must not depend on what was asked before later declarations):
+    classification, priming and type-hint queries on a predicate over the
+    variables declared so far; results are discarded."""
+    import omega.symbolic.prime as prm
+    names = [n for n in aut.vars if not n.endswith("'")]
+    if not names:
+        return
+    u = aut.true
+    for n in names:
+        u &= aut.bdd.var(var_bitnames(n, aut.vars[n])[0])
+    for f in (prm.prime, prm.flexible_support, prm.rigid_support,
+              prm.vars_in_support, prm.split_support, prm.unprimed_support,
+              prm.primed_support):
+        try:
+            r = f(u, aut)
+            if f is prm.prime:
+                prm.unprime(r, aut)
+        except Exception:
+            pass
+    for n in names:
+        try:
+            prm.is_variable(n, aut)
+            prm.is_constant(n, aut)
+        except Exception:
+            pass
+    try:
+        aut.implies_type_hints(u)
+    except Exception:
+        pass
+
+
+def make_automaton(flex, rigid, backend, staged=True):
+    """flex, rigid: lists of (name, kind).  staged: the context is used
+    (warm_up) between the declarations."""
     aut = trl.Automaton()
     set_backend(aut, backend)
     for name, kind in rigid:
         aut.declare_constants(**{name: kind})
+        if staged:
+            warm_up(aut)
     for name, kind in flex:
         aut.declare_variables(**{name: kind})
+        if staged:
+            warm_up(aut)
     return aut
 
 
